@@ -37,6 +37,7 @@ from rv import env, monitors
 ORIGINALS = {}          # name -> the unwrapped repository function
 WRAPPED = {}            # name -> the installed wrapper
 OBSERVATIONS = []       # precondition observations, see module docstring
+WORST = {}              # largest observed defect per check (for the evidence: margin against the tolerances)
 LAST_KRYLOV = {}        # info about the most recent expm_krylov call (exit branch, buffer growth, iterations, ...)
 
 ORTHO_TOL = 1e-10       # |U^H U - 1|_max
@@ -63,6 +64,12 @@ class KrylovContractBroken(Exception):
 
 class KrylovPreconditionBroken(Exception):
     pass
+
+
+def _worst(name, val):
+    val = float(val)
+    if val > WORST.get(name, -1.0):
+        WORST[name] = val
 
 
 def drain_observations():
@@ -231,9 +238,11 @@ def check_svd_qn(coef_array, qnbigl, qnbigr, qntot, QR, system, full_matrices, o
             bad("column-count", got=u.shape[1], expected=n_kept)
         q = u if system == "L" else v
         d = _ortho_defect(q)
+        _worst("svd_qn_ortho_defect", d)
         if d > ORTHO_TOL:
             bad("q-not-orthonormal", defect=d)
         err = float(np.linalg.norm(u @ v.T - ma))
+        _worst("svd_qn_reconstruction_rel_err", err / scale if scale > 0 else err)
         if err > tol_rec:
             bad("reconstruction", err=err, scale=scale)
         return None
@@ -242,9 +251,11 @@ def check_svd_qn(coef_array, qnbigl, qnbigr, qntot, QR, system, full_matrices, o
     if len(su) != u.shape[1] or len(sv) != v.shape[1]:
         return bad("singular-value-count", n_su=len(su), n_u=u.shape[1], n_sv=len(sv), n_v=v.shape[1])
     d = _ortho_defect(u)
+    _worst("svd_qn_ortho_defect", d)
     if d > ORTHO_TOL:
         bad("u-not-orthonormal", defect=d)
     d = _ortho_defect(v)
+    _worst("svd_qn_ortho_defect", d)
     if d > ORTHO_TOL:
         bad("v-not-orthonormal", defect=d)
     if not full_matrices and (u.shape[1] != n_kept or v.shape[1] != n_kept):
@@ -256,11 +267,13 @@ def check_svd_qn(coef_array, qnbigl, qnbigr, qntot, QR, system, full_matrices, o
     if full_matrices and (np.any(su[npair:] != 0) or np.any(sv[npair:] != 0)):
         bad("extra-column-with-nonzero-singular-value")
     err = float(np.linalg.norm((u[:, :npair] * su[:npair]) @ v[:, :npair].T - ma))
+    _worst("svd_qn_reconstruction_rel_err", err / scale if scale > 0 else err)
     if err > tol_rec:
         bad("reconstruction", err=err, scale=scale)
     ref = np.linalg.svd(ma, compute_uv=False) if ma.size else np.zeros(0)
     smax = float(ref[0]) if len(ref) else 0.0
     d = _sv_multiset_defect(su[:npair], ref, npair)
+    _worst("svd_qn_singular_value_rel_defect", d / smax if smax > 0 else d)
     if d > RECON_TOL * smax + 1e-300:
         bad("singular-values-differ-from-dense-svd", defect=d, smax=smax)
     if not full_matrices and npair > 1 and np.any(np.diff(su) > 0):
@@ -319,6 +332,7 @@ def check_eigh_qn(dm, qnbigl, qnbigr, qntot, system, result, where):
     if u.ndim != 2 or u.shape[0] != n or u.shape[1] != len(inc) or len(s) != u.shape[1] or len(lab) != u.shape[1]:
         return bad("shape", u_shape=list(u.shape), n_s=len(s), n_qn=len(lab), expected_columns=len(inc))
     x = _ortho_defect(u)
+    _worst("eigh_qn_ortho_defect", x)
     if x > ORTHO_TOL:
         bad("u-not-orthonormal", defect=x)
     x = _support_defect(u, lab, q)
@@ -348,6 +362,7 @@ def check_eigh_qn(dm, qnbigl, qnbigr, qntot, system, result, where):
     if x > 1e-9 * wmax + 1e-300:
         bad("eigenvalues-differ-from-dense-eigh", defect=x, wmax=wmax)
     err = float(np.linalg.norm((u * s ** 2) @ u.conj().T - mh))
+    _worst("eigh_qn_reconstruction_rel_err", err / scale if scale > 0 else err)
     if err > 1e-9 * scale + 1e-300:
         bad("reconstruction", err=err, scale=scale)
     return None
@@ -407,7 +422,7 @@ def locate_krylov_lines(func):
         return None
 
     for name, needles in (("full-space", ("j==len(vstart)-1",)), ("breakdown", ("beta[j]<",)),
-                          ("converged", ("allclose(res,new_res)",))):
+                          ("converged", ("allclose(res,new_res",))):
         i = guard_index(*needles)
         jx = next_stmt(i, "return") if i is not None else None
         if jx is None:
@@ -532,15 +547,24 @@ def krylov_signature(start_complex, map_complex, dt, what):
     return sig + ("|complex-dt" if dt_class(dt) == "complex" else "")
 
 
-def dense_expm_apply(mh, dt, v):
+def dense_expm_apply(mh, dt, v, with_growth=False):
     """exp(dt * mh) v for Hermitian mh through eigh (exact for Hermitian matrices; the repository's own test avoids
-    scipy.linalg.expm for the same reason)."""
+    scipy.linalg.expm for the same reason).  with_growth: also return ||exp(dt*mh)||_2 = exp(max Re(dt*w))."""
     w, x = np.linalg.eigh(mh)
-    return x @ (np.exp(dt * w) * (x.conj().T @ v))
+    ref = x @ (np.exp(dt * w) * (x.conj().T @ v))
+    if with_growth:
+        return ref, float(np.exp(np.max(np.real(dt * w)))) if len(w) else 1.0
+    return ref
 
 
-def krylov_tolerance(ref, v):
-    return KRYLOV_RTOL * float(np.linalg.norm(ref)) + KRYLOV_ATOL * (float(np.linalg.norm(v)) + np.sqrt(len(v)))
+def krylov_tolerance(ref, v, growth=1.0):
+    """ten times the kernel's own stopping criterion, plus the unavoidable amplification of input rounding:
+    a perturbation eps*||v|| of the start vector changes exp(dt A)v by up to ||exp(dt A)|| eps ||v|| (matters only for
+    real dt when the start vector has no weight on the growing part of the spectrum - reference and result are then
+    both determined by rounding noise)."""
+    nv = float(np.linalg.norm(v))
+    return (KRYLOV_RTOL * float(np.linalg.norm(ref)) + KRYLOV_ATOL * (nv + np.sqrt(len(v)))
+            + 1e4 * np.finfo(float).eps * growth * nv)
 
 
 def check_krylov_post(Afunc, dt, vstart, block_size, result, where):
@@ -583,8 +607,10 @@ def check_krylov_post(Afunc, dt, vstart, block_size, result, where):
         monitors.record(sig("nonfinite"), **info)
         return
     err = float(np.linalg.norm(r - ref))
-    tol = krylov_tolerance(ref, v)
+    tol = krylov_tolerance(ref, v, float(np.exp(np.max(np.real(dt * w)))))
     LAST_KRYLOV["contract_err_over_tol"] = err / tol
+    if not (v.dtype.kind != "c" and imag_rel > 1e-12):
+        _worst("krylov_contract_err_over_tol" + ("" if where == "direct" else ":callsite"), err / tol)
     if err > tol:
         monitors.record(sig("dense-mismatch"), err=err, tol=tol, ref_norm=float(np.linalg.norm(ref)), **info)
     if not (1 <= int(nvec) <= n):
